@@ -12,7 +12,17 @@
                    the real library's binding of every use (TraceBuilder: symbol type of the IDENTIFIER node) must agree;
                (b) callback level: the real callback trace replayed through M-BUILD (drv_c08): stack depths after every
                    call, and the model's symbol per identifier must correspond one-to-one to the library's;
-               (c) queries: unqualified names and P.x against the built document (harness/c07.cpp).
+               (c) queries: unqualified names and P.x against the built document (harness/c07.cpp); for P.x / P.f() also the
+                   declaration the member index designates in the frame of P's template (the name must be x whatever stands
+                   before x there: local type names, parameters), and the verdict on a call P.f() must be the one f's own body
+                   earns (a function that writes is no property; one that only reads is);
+               (d) call sequences: the built document is changed through its public interface (Document::remove_process,
+                   frame_t::remove on the global frame) and names are resolved again afterwards -- the global frame as a scope
+                   script with `X:name` events -> drv_c07 -> expected symbol per name; every name but the removed one keeps its
+                   declaration, the removed one falls back to the declaration it was hiding.
+               Rejected declarations that carry a parameter list (`dynamic W(double a);`, a second function of the same name,
+               an instantiation of something that is no template) are part of the generated models: their parameters are a
+               scope that closes with the declaration, whatever the builder does with the declaration itself.
 """
 import base64
 import json
@@ -190,10 +200,36 @@ class Gen:
         self.leave()
         return "void %s(%s) { %s }" % (name, ", ".join("int[0,%d] %s" % (k, p) for k, p in zip(ks, ps)), body)
 
+    def rejected(self, tag):
+        """a declaration with a parameter list that the builder diagnoses (parameter of a type no dynamic template may have, name already
+        taken): the parameters are in scope of nothing -- least of all of the NEXT declaration that has parameters of its own"""
+        r = self.r
+        ps = []
+        for _ in range(r.choice([1, 1, 2])):
+            pn = r.choice(POOL)
+            if pn not in ps:
+                ps.append(pn)
+        ks = self.enter(ps)
+        self.leave()
+        bad = r.randrange(len(ps))
+        forms = ["double %s", "clock %s", "chan %s", "int[0,%d] &%s"]
+        txt = []
+        for j, (k, pn) in enumerate(zip(ks, ps)):
+            f = r.choice(forms) if j == bad else "int[0,%d] %s"
+            txt.append(f % ((k, pn) if "%d" in f else pn))
+        return "dynamic dw%s(%s);" % (tag, ", ".join(txt))
+
     def block_decls(self, prefix, n, funs=True):
         out = []
         for i in range(n):
             c = self.r.random()
+            if prefix == "g" and not self.clean and self.r.random() < 0.2:
+                out.append(self.rejected("%s%d" % (prefix, i)))
+                if self.r.random() < 0.5:
+                    continue      # the very next declaration is the one after it in the text; else one of the kinds below follows directly
+            if prefix == "g" and not self.clean and funs and c >= 0.75 and self.r.random() < 0.25:
+                # the same function name twice: the second definition is reported, its parameters and body are a scope all the same
+                out.append(self.function("fn%s%d" % (prefix, i)))
             if c < 0.55:
                 out.append(self.decl())
             elif c < 0.75 and not self.clean:
@@ -283,6 +319,9 @@ def gen_case(r):
         for nm, k, dep in g.decls[nd:]:
             if dep == len(g.open):
                 t["tdecl"].setdefault(nm, []).append(k)
+        # local type names anywhere among the template's declarations: P.x counts the declarations of the template, type names included
+        for j in range(r.choice([0, 0, 1, 2])):
+            t["decls"].insert(r.randint(0, len(t["decls"])), "typedef int[0,%d] lt%d_%d;" % (r.randint(1, 9), ti, j))
         if ps:
             t["decls"].append("int[0,%s] yd%d;" % (ps[0], ti))
             g.ev.append("U:" + ps[0])
@@ -320,6 +359,16 @@ def gen_case(r):
         m["system"].append(g.decl())
     for ti, t in enumerate(m["templates"]):
         n = len(t["pnames"])
+        if not clean and r.random() < 0.25:
+            # rejected declarations right before an instantiation (which takes its parameters from the same place as a function does)
+            if r.random() < 0.5:
+                m["system"].append(g.rejected("s%d" % ti))
+            else:
+                b = r.choice(POOL)
+                ks = g.enter([b])
+                arg = g.use()
+                g.leave()
+                m["system"].append("X%d(const int[0,%d] %s) = gz(%s);" % (ti, ks[0], b, arg))      # gz is a variable, not a template
         if r.random() < 0.65 or n == 0:
             g.enter([])
             args = [str(r.randint(0, 3)) if (clean or r.random() < 0.6) else g.use() for _ in range(n)]
@@ -348,6 +397,66 @@ def gen_case(r):
             else:
                 m["processes"].append("Q%d" % ti)
     return m, g
+
+
+def member_case(r):
+    """one template whose declarations -- local type names, variables (some of a local type), functions that only read, functions that
+    write -- stand in a random order, reached from queries through its processes: P.x / P.f() must designate the declaration of that very
+    name whatever stands before it in the template (the index of a process member counts ALL declarations of the template, type names and
+    parameters included), and the call P.f() must get the verdict f's own body earns.  Returns (xml, queries, expectations)."""
+    k = [20]
+
+    def nk():
+        k[0] += 1
+        return k[0]
+    npar = r.choice([0, 0, 1, 2])
+    params = ["const int[0,9] p%d" % j for j in range(npar)]
+    decls, members, tds, vars_ = [], [], [], []
+    for j in range(r.randint(3, 9)):
+        c = r.random()
+        # a type name is the likelier the fewer there are: the members after the FIRST one are the interesting ones
+        if c < (0.45 if not tds else 0.2):
+            kk = nk()
+            if r.random() < 0.3:
+                decls.append("typedef struct { int[0,%d] f; } td%d;" % (kk, j))
+            else:
+                decls.append("typedef int[0,%d] td%d;" % (kk, j))
+                tds.append(("td%d" % j, kk))
+        elif c < 0.6 or not vars_:
+            if tds and r.random() < 0.5:
+                tn, kk = r.choice(tds)
+                decls.append("%s v%d;" % (tn, j))
+            else:
+                kk = nk()
+                decls.append("int[0,%d] v%d;" % (kk, j))
+            vars_.append("v%d" % j)
+            members.append(("v%d" % j, kk, "var"))
+        elif c < 0.8:
+            kk = nk()
+            decls.append("int[0,%d] r%d() { return %s > 0 ? 1 : 0; }" % (kk, j, r.choice(vars_)))
+            members.append(("r%d" % j, kk, "reads"))
+        else:
+            kk = nk()
+            decls.append("int[0,%d] w%d() { %s = 0; return 0; }" % (kk, j, r.choice(vars_ + ["gz"])))
+            members.append(("w%d" % j, kk, "writes"))
+    nloc = r.randint(1, 3)
+    procs = []
+    for pi in range(r.randint(1, 3)):
+        procs.append(("P%d" % pi, [r.randint(0, 9) for _ in range(npar)]))
+    xml = ('<?xml version="1.0" encoding="utf-8"?><nta><declaration>int gz;</declaration><template><name>T</name>%s<declaration>%s</declaration>%s'
+           '<init ref="id0"/></template><system>%s\nsystem %s;</system></nta>'
+           % ("<parameter>%s</parameter>" % escape(", ".join(params)) if params else "", escape("\n".join(decls)),
+              "".join('<location id="id%d"><name>L%d</name></location>' % (j, j) for j in range(nloc)),
+              escape("\n".join("%s = T(%s);" % (pn, ", ".join(map(str, a))) for pn, a in procs)), ", ".join(pn for pn, _ in procs)))
+    qs, exp = [], []
+    for pn, _ in procs:
+        for nm, kk, kind in members:
+            qs.append("TC E<> %s.%s%s >= 0" % (pn, nm, "" if kind == "var" else "()"))
+            exp.append(("MEMBER", pn, nm, kk, kind))
+        for j in range(nloc):
+            qs.append("TC E<> %s.L%d" % (pn, j))
+            exp.append(("MEMBER", pn, "L%d" % j, None, "location"))
+    return xml, qs, exp
 
 
 KRE = re.compile(r"\(CONSTANT_int_0\)_\(CONSTANT_int_(\d+)\)")
@@ -608,29 +717,148 @@ def run(ctx):
     qmeta["q%d" % (len(models) - 1)] = (lq, lexp)
     qcases.append(("q%d" % (len(models) - 1), ln_xml, "\n".join(lq)))
     cov["identifier_length_limit"] = limit
-    qtext = "".join("%s %s %s\n" % (cid, base64.b64encode(x.encode()).decode(), base64.b64encode(q.encode()).decode()) for cid, x, q in qcases)
+    # members behind local type names, parameters and other members, in every order; calls judged by the callee's own body
+    nmem = 40 if not ctx.thorough else 600
+    for _ in range(nmem):
+        mx, mq, mexp = member_case(r)
+        models.append(({"globals": [], "templates": [], "system": [], "processes": [], "chains": [], "xml": mx}, Gen(r)))
+        qmeta["q%d" % (len(models) - 1)] = (mq, mexp)
+        qcases.append(("q%d" % (len(models) - 1), mx, "\n".join(mq)))
+    cov["process_member_models"] = nmem
+    # (d) call sequences: the same documents, changed through the public interface between two rounds of the same queries.  A process is
+    # taken out of the system (any but the last one moves every later symbol of the global frame; the last one moves none), sometimes a
+    # second symbol after it (another process, a global variable, the type name); then every name of the frame is resolved again
+    seqmeta = {}
+
+    def sequence(cid, xml, qs, exp, steps):
+        lines, meta = [], []
+        for si, (op, name) in enumerate(steps):
+            lines += ["#%s %s" % (op, name), "#resolve-all"]
+            meta += [("RM", name), ("ALL",)]
+            gone = {nm for _, nm in steps[:si + 1]}
+            for q, e in zip(qs, exp):
+                lines.append(q)
+                # what the query said about a removed name no longer holds; where the name binds now is the script's business (AT tokens)
+                meta.append(("Q", q, None if (e[0] in ("DOT", "DOTSUBST", "MEMBER", "ID") and e[1] in gone) else e))
+        seqmeta[cid] = (lines, meta, xml)
+        qcases.append((cid, xml, "\n".join(lines)))
+    for i, (m, g) in enumerate(models[:n]):
+        procs = m["processes"]
+        if not procs:
+            continue
+        qs, exp = qmeta["q%d" % i]
+        steps = [("remove-process", r.choice(procs[:-1]) if len(procs) > 1 and r.random() < 0.7 else r.choice(procs))]
+        if r.random() < 0.4:
+            c = r.random()
+            rest = [x for x in procs if x != steps[0][1]]
+            steps.append(("remove-process", r.choice(rest)) if rest and c < 0.4 else ("remove-symbol", r.choice(POOL + [TY, "gz"] + procs)))
+        sequence("s%d" % i, render_xml(m), qs, exp, steps)
+    fixed = [(chain_model_index, ["R%d" % v for v in ([0, 13, 28, 29] if not ctx.thorough else range(nchain))]),
+             (chain_model_index + 2, ["P"]), (chain_model_index + 3, ["P5", "P7", "R"] if ctx.thorough else ["P5"])]
+    for mi, victims in fixed:
+        qs, exp = qmeta["q%d" % mi]
+        for v in victims:
+            sequence("s%d_%s" % (mi, v), models[mi][0]["xml"], qs, exp, [("remove-process", v)])
+    for mi in range(len(models) - nmem, len(models), 4):
+        qs, exp = qmeta["q%d" % mi]
+        sequence("s%d" % mi, models[mi][0]["xml"], qs, exp, [("remove-process", "P0")])
+    cov["call_sequences"] = len(seqmeta)
     def run_queries(exe):
-        rc, out, err, _ = core.run_exe(exe, ["batch"], stdin_text=qtext, timeout=900, env=C08.ABORT_ENV)
-        if rc != 0:
-            ctx.finding("crash:" + C08.crash_site(err, rc), "c07 harness died rc=%s" % rc, {"stderr": err[-3000:]})
-        res_, cur = {}, None
-        for line in out.split("\n"):
-            if line.startswith("BEGIN "):
-                cur = line.split()[1]
-                res_[cur] = {"rc": None, "q": {}}
-            elif line.startswith("END "):
+        """the plain queries in one process, the call sequences in another: a document that is changed under the parser's feet may take
+        the process down, and the answers to the plain queries must not go with it"""
+        res_, sites = {}, set()
+        for batch in ([c for c in qcases if c[0] not in seqmeta], [c for c in qcases if c[0] in seqmeta]):
+            restarts = 0
+            while batch:
+                qtext = "".join("%s %s %s\n" % (cid, base64.b64encode(x.encode()).decode(), base64.b64encode(q.encode()).decode()) for cid, x, q in batch)
+                rc, out, err, _ = core.run_exe(exe, ["batch"], stdin_text=qtext, timeout=900, env=C08.ABORT_ENV)
                 cur = None
-            elif cur and line.startswith("RC "):
-                res_[cur]["rc"] = line
-            elif cur and line.startswith("Q "):
-                res_[cur]["q"][int(line.split()[1])] = line.split()[2:]
+                for line in out.split("\n"):
+                    if line.startswith("BEGIN "):
+                        cur = line.split()[1]
+                        res_[cur] = {"rc": None, "q": {}, "g": None}
+                    elif line.startswith("END "):
+                        cur = None
+                    elif cur and line.startswith("RC "):
+                        res_[cur]["rc"] = line
+                    elif cur and line.startswith("Q "):
+                        res_[cur]["q"][int(line.split()[1])] = line.split()[2:]
+                    elif cur and line.startswith("G "):
+                        res_[cur]["g"] = line.split()[1:]
+                if rc == 0:
+                    break
+                dead = [k for k, c in enumerate(batch) if c[0] == cur]
+                site = C08.crash_site(err, rc)
+                if site not in sites:
+                    sites.add(site)
+                    done = len(res_[cur]["q"]) if dead else 0
+                    c = batch[dead[0]] if dead else None
+                    ctx.finding("crash:" + site, "c07 harness died rc=%s%s" % (rc, " in case %s after %d answers, at: %s" % (
+                        cur, done, c[2].split("\n")[done:done + 1]) if c else ""),
+                                {"stderr": err[-3000:], "format": "xml", "input_b64": base64.b64encode(c[1].encode()).decode() if c else None,
+                                 "sequence": c[2].split("\n") if c else None})
+                # the cases behind the one it died in still have something to say (what is left of the dead one's answers is not judged)
+                restarts += 1
+                if not dead or restarts > 8:
+                    break
+                res_.pop(cur, None)
+                batch = batch[dead[0] + 1:]
         return res_
     qres = run_queries(exe07)
     # the same queries on the -O2 build: the mapping of a process is a std::map over symbol ADDRESSES, and the allocator of the sanitizer
     # build hands out addresses in another order than the ordinary one
     exe07p = core.build_harness(core.build_repo("plain"), "c07p", ["c07.cpp"])
     qres_plain = run_queries(exe07p)
-    qdis, nq, nq_clean = [], 0, 0
+
+    def judge(q, e, toks, clean):
+        """what is wrong with the library's answer `toks` to query q, given the expectation e (None: nothing)"""
+        if e is None:
+            return None
+        if e[0] == "ID":
+            ids = [t for t in toks if t.startswith("ID:%s:" % e[1])]
+            if e[2] is None:
+                if ids:
+                    return "unknown name bound: %s" % ids
+            else:
+                km = KRE.search(ids[0]) if ids else None
+                if not km or int(km.group(1)) != e[2]:
+                    return "expected global int[0,%d], got %s" % (e[2], toks)
+            return None
+        if e[0] == "LONG":
+            if not [t for t in toks if t.startswith("ERR:")]:
+                return "an identifier longer than the limit is accepted without a diagnostic: %s" % [t[:60] for t in toks]
+            return None
+        if e[0] == "IDTYPES":
+            got = [t.split(":", 2)[2] for t in toks if t.startswith("ID:%s:" % e[1])]
+            if got != e[2]:
+                return "the occurrences of %r have the types %s, the innermost binders give %s" % (e[1], got, e[2])
+            return None
+        if not clean:
+            return None       # process types are only meaningful for accepted models
+        d = [t for t in toks if t.startswith("DOT:%s.%s#" % (e[1], e[2]))]
+        # the index of P.x read the way its consumers read it: a position in the frame of P's template
+        decl = [t for t in toks if t.startswith("DECL:%s." % e[1])]
+        if d and decl != ["DECL:%s.%s#%s" % (e[1], e[2], d[0].split("#", 1)[1].split(":", 1)[0])]:
+            return "%s.%s designates %s in the frame of its template, not the declaration of %r" % (e[1], e[2], decl, e[2])
+        if e[0] == "DOT":
+            km = KRE.search(d[0]) if d else None
+            if not km or int(km.group(1)) != e[3]:
+                return "expected %s.%s = the template's int[0,%d], got %s" % (e[1], e[2], e[3], toks)
+        elif e[0] == "DOTSUBST":
+            if not d or "(CONSTANT_int_0)_(CONSTANT_int_%d)" % e[3] not in d[0]:
+                return "expected the argument %d substituted for the parameter in the type of %s.%s, got %s" % (e[3], e[1], e[2], toks)
+        elif e[0] == "MEMBER":
+            km = KRE.search(d[0]) if d else None
+            if not d or (e[3] is not None and (not km or int(km.group(1)) != e[3])):
+                return "expected %s.%s = the template's %s %s%s, got %s" % (e[1], e[2], e[4], e[2], "" if e[3] is None else " of int[0,%d]" % e[3], toks)
+            tc = [t for t in toks if t.startswith("TC:")]
+            if e[4] == "writes" and tc != ["TC:$Property_must_be_side-effect_free"]:
+                return "%s.%s() calls a function that writes a variable, the verdict on the property is %s" % (e[1], e[2], tc)
+            if e[4] != "writes" and tc != ["TC:ok"]:
+                return "%s.%s is a legal operand of a property (%s), the verdict is %s" % (e[1], e[2], e[4], tc)
+        return None
+
+    qdis, nq, nq_clean, plain_bad = [], 0, 0, set()
     for build_name, qres_b in (("asan", qres), ("plain", qres_plain)):
       n_before = len(qdis)
       for cid, (qs, exp) in qmeta.items():
@@ -639,39 +867,62 @@ def run(ctx):
             continue
         clean = rr["rc"].endswith("errors=0")
         for qi, (q, e) in enumerate(zip(qs, exp)):
-            toks = rr["q"].get(qi, [])
             nq += 1
-            if e[0] == "ID":
-                ids = [t for t in toks if t.startswith("ID:%s:" % e[1])]
-                if e[2] is None:
-                    if ids:
-                        qdis.append((cid, q, "unknown name bound: %s" % ids))
-                else:
-                    km = KRE.search(ids[0]) if ids else None
-                    if not km or int(km.group(1)) != e[2]:
-                        qdis.append((cid, q, "expected global int[0,%d], got %s" % (e[2], toks)))
-            elif e[0] == "LONG":
-                if not [t for t in toks if t.startswith("ERR:")]:
-                    qdis.append((cid, q[:40] + "..." + q[-20:], "an identifier longer than the limit is accepted without a diagnostic: %s" % [t[:60] for t in toks]))
-            elif e[0] == "IDTYPES":
-                got = [t.split(":", 2)[2] for t in toks if t.startswith("ID:%s:" % e[1])]
-                nq_clean += 1
-                if got != e[2]:
-                    qdis.append((cid, q, "the occurrences of %r have the types %s, the innermost binders give %s" % (e[1], got, e[2])))
-            elif not clean:
-                continue      # process types are only meaningful for accepted models
-            elif e[0] == "DOT":
-                nq_clean += 1
-                d = [t for t in toks if t.startswith("DOT:%s.%s#" % (e[1], e[2]))]
-                km = KRE.search(d[0]) if d else None
-                if not km or int(km.group(1)) != e[3]:
-                    qdis.append((cid, q, "expected %s.%s = the template's int[0,%d], got %s" % (e[1], e[2], e[3], toks)))
-            elif e[0] == "DOTSUBST":
-                nq_clean += 1
-                d = [t for t in toks if t.startswith("DOT:%s.%s#" % (e[1], e[2]))]
-                if not d or "(CONSTANT_int_0)_(CONSTANT_int_%d)" % e[3] not in d[0]:
-                    qdis.append((cid, q, "expected the argument %d substituted for the parameter in the type of %s.%s, got %s" % (e[3], e[1], e[2], toks)))
+            nq_clean += 1 if (e[0] == "IDTYPES" or (clean and e[0] in ("DOT", "DOTSUBST", "MEMBER"))) else 0
+            what = judge(q, e, rr["q"].get(qi, []), clean)
+            if what:
+                qdis.append((cid, q[:40] + "..." + q[-20:] if e[0] == "LONG" else q, what))
+                plain_bad.add((cid, q, what, build_name))
       qdis[n_before:] = [(c_, q_, w_ + " [%s build of the library]" % build_name) for c_, q_, w_ in qdis[n_before:]]
+    # (d) evaluated: the global frame of each changed document as a scope script (declarations in frame order, X:name per removal, U:name
+    # per resolved name) through drv_c07; the symbol the library reports per name (its position in the frame before the change) must be
+    # the declaration the declarative semantics gives, and the queries must still say about every remaining process what they said before
+    sdis, seq_scripts, nseq_uses, nseq_removed = [], [], 0, 0
+    for build_name, qres_b in (("asan", qres), ("plain", qres_plain)):
+        for cid, (lines, meta, xml) in seqmeta.items():
+            rr = qres_b.get(cid)
+            if not rr or not rr["rc"] or rr["g"] is None:
+                continue
+            clean = rr["rc"].endswith("errors=0")
+            ev, lib = ["D:" + ("" if nm == '""' else nm) for nm in rr["g"]], []
+            for li, mt in enumerate(meta):
+                toks = rr["q"].get(li, [])
+                ats = [t[3:].rsplit("@", 1) for t in toks if t.startswith("AT:")]
+                if mt[0] == "RM":
+                    rm = [t[8:].rsplit("@", 1) for t in toks if t.startswith("REMOVED:") and t != "REMOVED:none"]
+                    for nm, pos in rm:
+                        nseq_removed += 1
+                        ev += ["U:" + nm, "X:" + nm]      # the removed symbol is the one the name was bound to
+                        lib.append((nm, pos, "%s (the symbol that is removed)" % lines[li]))
+                    continue
+                for nm, pos in ats:
+                    if pos != "local":
+                        ev.append("U:" + nm)
+                        lib.append((nm, pos, lines[li]))
+                if mt[0] == "Q":
+                    what = judge(mt[1], mt[2], [t for t in toks if not t.startswith("AT:")], clean)
+                    # (an answer that was already wrong on the unchanged document is reported there, not as an effect of the change)
+                    if what and ("q" + re.match(r"s(\d+)", cid).group(1), mt[1], what, build_name) not in plain_bad:
+                        sdis.append((cid, mt[1], "after %s: %s [%s build of the library]" % (", ".join(l for l in lines[:li] if l.startswith("#remove")), what, build_name)))
+            seq_scripts.append((cid, build_name, ev, lib))
+    if seq_scripts and os.path.exists(core.lean_exe("drv_c07")):
+        rc, out, err, _ = core.run_exe(core.lean_exe("drv_c07"), [], stdin_text="\n".join(" ".join(ev) for _, _, ev, _ in seq_scripts) + "\n")
+        for (cid, build_name, ev, lib), line in zip(seq_scripts, out.split("\n") + [""] * len(seq_scripts)):
+            f = dict(x.split("=", 1) for x in line.split()[1:]) if line.startswith("WN ") else None
+            spec = (f["spec"].split(",") if f["spec"] else []) if f else None
+            if spec is None or len(spec) != len(lib) or f["spec"] != f["impl"]:
+                ctx.proof_broken("C07_binding", "drv_c07 on the script of a changed global frame: %r (%d names resolved by the library)" % (line[:300], len(lib)),
+                                 "call sequences of this run")
+                break
+            nseq_uses += len(lib)
+            for (nm, pos, where), want in zip(lib, spec):
+                if pos != want:
+                    sdis.append((cid, where, "%r is bound to the symbol at position %s of the global frame (as it was before the change), the declarative "
+                                 "semantics of the frame without the removed symbols gives %s [%s build of the library]" % (nm, pos, want, build_name)))
+                    break
+    cov["call_sequence_names_resolved"] = nseq_uses
+    cov["call_sequence_removals"] = nseq_removed
+    cov["call_sequence_disagreements"] = len(sdis)
     # the model of expr_dot's substitution rounds (Model/TypeSubst.lean, driver op DOTTYPE) on the two-step chains: whatever the order of the
     # mapping, the model's result is the library's type
     dt_lines, dt_expect = [], []
@@ -702,9 +953,16 @@ def run(ctx):
     if qdis:
         cid, q, what = qdis[0]
         i = int(cid[1:])
-        ctx.finding("query:" + ("long-identifier" if "longer than the limit" in what else "process-member" if "." in q.split()[1] else "identifier"), "query %r: %s (%d of %d)" % (q, what, len(qdis), nq),
+        ctx.finding("query:" + ("long-identifier" if "longer than the limit" in what else "process-member" if "." in (q[3:] if q.startswith("TC ") else q).split()[1] else "identifier"), "query %r: %s (%d of %d)" % (q, what, len(qdis), nq),
                     {"format": "xml", "input_b64": base64.b64encode((models[i][0].get("xml") or render_xml(models[i][0])).encode()).decode(), "query": q,
                      "observed": what})
+    if sdis:
+        cid, q, what = sdis[0]
+        lines, meta, xml = seqmeta[cid]
+        ctx.finding("sequence:remove", "%s: %s (%d disagreements in %d call sequences)" % (q, what, len(sdis), len(seqmeta)),
+                    {"format": "xml", "input_b64": base64.b64encode(xml.encode()).decode(), "sequence": lines, "observed": what,
+                     "required": "after Document::remove_process / frame_t::remove every other name keeps its declaration and the removed name "
+                                 "falls back to the declaration it was hiding"})
     cov["evaluations"] = n_uses + nq
     cov["distinct_nontrivial"] = sum(1 for _, g in models[:n] if len(set(g.ev)) > 8)
     cov["rule"] = "library binding (type int[0,K] of the bound symbol) = declarative nearest-enclosing / last-preceding binding computed by drv_c07"
@@ -717,6 +975,8 @@ def run(ctx):
         "the exception shapes of C16",
         "P.x (process member with arguments substituted) is checked on the real library only, not modelled",
         "declarations are told apart by their type int[0,K]; symbol positions are not usable (decl_var passes an empty position)",
+        "call sequences change the global frame only (Document::remove_process, frame_t::remove) and only after the document is built; symbols "
+        "are told apart by their position in that frame before the first change",
     ]
 
 
@@ -727,8 +987,17 @@ def replay(ctx, path):
     if not rp.get("input_b64"):
         print(json.dumps(rp, indent=1)[:4000])
         return 1
-    exe08, _ = C08.build_harness("asan")
     text = base64.b64decode(rp["input_b64"]).decode()
+    if rp.get("sequence") or rp.get("query"):
+        # a query, or a sequence of changes and queries, against the built document
+        exe07 = core.build_harness(core.build_repo("asan"), "c07", ["c07.cpp"])
+        qs = "\n".join(rp.get("sequence") or [rp["query"]])
+        rc, out, err, _ = core.run_exe(exe07, ["batch"], stdin_text="r0 %s %s\n" % (base64.b64encode(text.encode()).decode(), base64.b64encode(qs.encode()).decode()),
+                                       timeout=300, env=C08.ABORT_ENV)
+        print(out[-6000:], err[-3000:])
+        print("observed:", rp.get("observed"))
+        return 1
+    exe08, _ = C08.build_harness("asan")
     res, crashes = C08.run_batch(exe08, [("r0", rp.get("format", "xml"), 1, "t", text)], 1)
     for l in res.get("r0", []):
         if l.startswith("C 0 expr_identifier"):
